@@ -16,6 +16,7 @@ pub mod c14;
 pub mod c15;
 pub mod c17;
 pub mod c18;
+pub mod c20;
 pub mod c21;
 pub mod c23;
 pub mod c24;
@@ -50,6 +51,7 @@ pub fn registry() -> &'static [Check] {
         Check { meta: &c17::META, run: c17::run, shards: (16, 16) },
         Check { meta: &c18::META18, run: c18::run18, shards: (16, 16) },
         Check { meta: &c18::META19, run: c18::run19, shards: (16, 16) },
+        Check { meta: &c20::META, run: c20::run, shards: (16, 16) },
         Check { meta: &c21::META21, run: c21::run21, shards: (16, 16) },
         Check { meta: &c21::META22, run: c21::run22, shards: (16, 16) },
         Check { meta: &c23::META, run: c23::run, shards: (16, 16) },
